@@ -18,7 +18,7 @@ def _flag(vc, name):
 
 
 # ---------------------------------------------------------------------------------------------- TMS
-@contract("TextMessagingService.as_bytes", "okdmr.dmrlib.motorola.text_messaging_service:TextMessagingService.as_bytes", ["C16"])
+@contract("TextMessagingService.as_bytes", "okdmr.dmrlib.motorola.text_messaging_service:TextMessagingService.as_bytes", ["C16", "C19"])
 def tms_roundtrip(vc, kind, alen, mlen=0, enc=None, opt=True):
     """kind: availability / ack / text;  opt: the optional part is present (availability header / acknowledged sequence
     number);  enc: None or 'UCS2_LE';  address and message: symbolic octets of literal length"""
@@ -95,7 +95,7 @@ def ars_frame_clauses(vc, p, raw, hdr):
     vc.prove("csbk_trailer_exactly_when_flagged", vc.eq(raw[-2:], b"\x10\x80") if p.is_csbk_ars else (len(raw) < 4 or vc.not_(vc.eq(raw[-2:], b"\x10\x80"))))
 
 
-@contract("AutomaticRegistrationService.as_bytes", "okdmr.dmrlib.motorola.automatic_registration_service:AutomaticRegistrationService.as_bytes", ["C16"])
+@contract("AutomaticRegistrationService.as_bytes", "okdmr.dmrlib.motorola.automatic_registration_service:AutomaticRegistrationService.as_bytes", ["C16", "C19"])
 def ars_roundtrip(vc, ptype, more, csbk):
     """acknowledgement (with refresh time on success / failure reason on failure, or without second header), status query,
     de-registration notice: all header flags symbolic"""
